@@ -240,11 +240,17 @@ def c05Step (s : St) (req : List Sx) : St × String :=
     match sitesOfSx sites with
     | some ss => ({ sites := ss, variant := s.variant }, "ok")
     | none => (s, "bad-request")
-  | [.list [.atom "variant", .atom "on"]] => ({ s with variant := { selectWaitsForAnswer := true } }, "ok")
-  | [.list [.atom "variant", .atom "off"]] => ({ s with variant := {} }, "ok")
+  | [.list [.atom "variant", .atom "on"]] => ({ s with variant := { s.variant with selectWaitsForAnswer := true } }, "ok")
+  | [.list [.atom "variant", .atom "off"]] => ({ s with variant := { s.variant with selectWaitsForAnswer := false } }, "ok")
+  -- `(release on|off)`: variant `releaseDead` (notes/C06-fixes/01)
+  | [.list [.atom "release", .atom "on"]] => ({ s with variant := { s.variant with releaseDead := true } }, "ok")
+  | [.list [.atom "release", .atom "off"]] => ({ s with variant := { s.variant with releaseDead := false } }, "ok")
   | [.list [.atom "msg", v]] =>
     match Val.ofSx v with
-    | some m => let s' := { s with w := s.w.notifyMessage 0 m }; (s', renderState s')
+    | some m =>
+      -- p is not persistent
+      let s' := { s with w := { s.w with ex := Exec.notifyMessageV s.variant (fun _ => false) s.w.ex 0 m } }
+      (s', renderState s')
     | none => (s, "bad-request")
   | [.list [.atom "pending", p]] =>
     -- a `None` entry of an UpdateAwaitResults (`notify_pending`; only the patched code calls it)
@@ -271,7 +277,11 @@ def c05Step (s : St) (req : List Sx) : St × String :=
     | _, _ => (s, "bad-request")
   | [.list [.atom "pfinished"]] =>
     match s.ex.getProc 0 with
-    | some p => let s' := s.setEx (s.ex.setProc 0 { p with result := some (.ok (.t "Ok")) }); (s', renderState s')
+    | some p =>
+      let s1 := s.setEx (s.ex.setProc 0 { p with result := some (.ok (.t "Ok")) })
+      -- the finished block of `Executor::step` ends with `release_dead_roots` (variant `releaseDead`)
+      let s' := if s.variant.releaseDead then { s1 with w := s1.w.releaseDead 0 } else s1
+      (s', renderState s')
     | none => (s, "no-process")
   | [.list [.atom "wake"]] => let s' := s.setEx (s.ex.wake 0); (s', renderState s')
   | [.list [.atom "select", site, now]] =>
@@ -290,7 +300,11 @@ def c05Step (s : St) (req : List Sx) : St × String :=
             -- a process that did not park is re-queued at the end of the slice (or keeps running)
             let ex1 := w1.ex
             let ex2 := if 0 ∈ ex1.selecting then ex1 else { ex1 with queue := ex1.queue ++ [0] }
-            let s' := { s with w := { w1 with ex := ex2 } }
+            let s1 := { s with w := { w1 with ex := ex2 } }
+            -- a failing select ends the process in the same executor step: finished block, then release
+            let s' := match r with
+              | .failed _ => if s.variant.releaseDead then { s1 with w := s1.w.releaseDead 0 } else s1
+              | _ => s1
             (s', renderRes r ++ " " ++ renderState s')
           | (_, none) => (s, "no-process")
       | _, _ => (s, "bad-request")
@@ -301,7 +315,10 @@ def c05Step (s : St) (req : List Sx) : St × String :=
       match p.sel.bind pendingFilterRes with
       | some (.fail _) =>
         match s.ex.selectPure 0 0 [] with
-        | (ex1, some r) => let s' := s.setEx ex1; (s', renderRes r ++ " " ++ renderState s')
+        | (ex1, some r) =>
+          let s1 := s.setEx ex1
+          let s' := if s.variant.releaseDead then { s1 with w := s1.w.releaseDead 0 } else s1
+          (s', renderRes r ++ " " ++ renderState s')
         | (_, none) => (s, "no-process")
       | _ => (s, "no-fail")
     | none => (s, "no-process")
